@@ -34,6 +34,7 @@ class Model:
     def __init__(self, kind="dict"):
         self.cols = {"a": list(A0), "b": list(B0_MIXED if kind == "dict_mixed" else B0)}
         self.kept = None            # a bigarray the caller obtained earlier and still holds
+        self.handfilled = kind == "handfilled"
 
     @property
     def nrows(self):
@@ -316,6 +317,13 @@ def make_initial(kind, work):
                 for x, y in zip(A0, B0):
                     fh.write("%f %f\n" % (x, y))
         return C.columnfile(p)
+    if kind == "handfilled":
+        # an empty table filled in by hand: titles, then the whole array (set_bigarray fixes nrows; the ncols counter is not the caller's
+        # business and is left out of the invariant for this start)
+        cf = C.columnfile(new=True)
+        cf.titles = ["a", "b"]
+        cf.bigarray = [np.array(A0), np.array(B0)]
+        return cf
     if kind == "dict":
         return C.colfile_from_dict({"a": np.array(A0), "b": np.array(B0)})
     if kind == "dict_mixed":
@@ -342,7 +350,7 @@ def invariant(cf, m):
         return ("titles", {"titles": list(cf.titles), "expected": titles})
     if cf.nrows != m.nrows:
         return ("nrows", {"nrows": cf.nrows, "expected": m.nrows})
-    if cf.ncols != len(titles):
+    if cf.ncols != len(titles) and not getattr(m, "handfilled", False):
         return ("ncols", {"ncols": cf.ncols, "expected": len(titles)})
     d = data_of(cf)
     if len(d) != len(titles):
@@ -467,6 +475,8 @@ def plan(tier, seed):
         depth = 5 if tier != "quick" else (4 if (ii - seed) % len(INITS) in (0, 2) else 3)
         for o1 in range(len(OPS)):
             shards.append(("bfs", init, o1, depth))
+    for o1 in range(len(OPS)):
+        shards.append(("bfs", "handfilled", o1, 3 if tier != "quick" else 2))
     shards.append(("readonly",))
     k = seed % len(shards)
     return shards[k:] + shards[:k]
